@@ -1,7 +1,7 @@
 (* core/src/language/python.rs, function by function. Output is text (str). *)
 From Coq Require Import String.
 From TS Require Import Model.Str Model.Outcome Model.Unicode Model.Types Model.Parse Model.Rename
-                       Model.TopsortAlgo Model.Topsort Model.Lang.Common Model.Lang.ConvertCase.
+                       Model.TopsortAlgo Model.Topsort Model.Lang.Common Model.Lang.ConvertCase Model.Lang.Decl.
 
 (* python.rs:82 struct Python: the pub fields the harness sets; py_version = env!("CARGO_PKG_VERSION") *)
 Record py_config := { py_type_mappings : tmap; py_no_version_header : bool; py_version : str }.
@@ -102,9 +102,9 @@ Variable cfg : py_config.
 Notation PM := (M py_state).
 
 (* python.rs:737 python_property_aware_rename. NB a keyword keeps the ORIGINAL spelling plus "_" *)
+Definition py_name_is_keyword (name : str) : bool := mem_str (cc_to_snake uc name) py_keywords.
 Definition py_property_aware_rename (name : str) : str :=
-  let snake_name := cc_to_snake uc name in
-  if mem_str snake_name py_keywords then name ++ lit "_" else snake_name.
+  if py_name_is_keyword name then name ++ lit "_" else cc_to_snake uc name.
 
 (* python.rs:529 add_import *)
 Definition py_add_import (module identifier : str) : PM unit :=
@@ -146,37 +146,51 @@ Definition py_add_common_imports (is_opt requires_custom_translation is_aliased 
             else ret tt);
   if is_aliased || is_opt then py_add_import (lit "pydantic") (lit "Field") else ret tt.
 
-(* format_type (mod.rs:207), python.rs:188 format_simple_type, python.rs:163 format_generic_type,
-   python.rs:201 format_special_type *)
-Fixpoint py_format_type (generics : list str) (t : rtype) : PM str :=
+(* ---- target type expressions: format_type (mod.rs:207), python.rs:188 format_simple_type,
+   python.rs:163 format_generic_type, python.rs:201 format_special_type, building a tree;
+   [py_show] prints it.  Constructors used: XName (user types, builtins, List[..], Dict[.., ..],
+   Name[..]), XOpt (Optional[..]), XRaw (type_mappings results). XSeq / XFixed / XMap are never built. ---- *)
+Fixpoint py_show (x : texp) : str :=
+  match x with
+  | XName n [] => n
+  | XName n args => n ++ lit "[" ++ join (lit ", ") (map py_show args) ++ lit "]"
+  | XOpt e => lit "Optional[" ++ py_show e ++ lit "]"
+  | XRaw t => t
+  (* not produced by py_texp; printed the way Python would spell them *)
+  | XSeq e => lit "List[" ++ py_show e ++ lit "]"
+  | XFixed es => lit "Tuple[" ++ join (lit ", ") (map py_show es) ++ lit "]"
+  | XMap k v => lit "Dict[" ++ py_show k ++ lit ", " ++ py_show v ++ lit "]"
+  end.
+
+Fixpoint py_texp (generics : list str) (t : rtype) : PM texp :=
   (* python.rs:206-212: the special type's Display is looked up in type_mappings first *)
-  let special_mapped (k : PM str) : PM str :=
+  let special_mapped (k : PM texp) : PM texp :=
     match tmap_get (py_type_mappings cfg) (rtype_display t) with
     | Some mapped =>
       mdo _ <- (if py_is_some (py_json_translation_for_type mapped) then py_add_custom_type mapped else ret tt);
-      ret mapped
+      ret (XRaw mapped)
     | None => k
     end in
-  let list_of (x : rtype) : PM str :=
+  let list_of (x : rtype) : PM texp :=
     mdo _ <- py_add_import (lit "typing") (lit "List");
-    mdo s <- py_format_type generics x;
-    ret (lit "List[" ++ s ++ lit "]") in
+    mdo e <- py_texp generics x;
+    ret (XName (lit "List") [e]) in
   match t with
   | RSimple id =>
     mdo _ <- py_add_imports id;
-    ret (match tmap_get (py_type_mappings cfg) id with Some m => m | None => id end)
+    ret (match tmap_get (py_type_mappings cfg) id with Some m => XRaw m | None => XName id [] end)
   | RGeneric id ps =>
     mdo _ <- py_add_imports id;
     match tmap_get (py_type_mappings cfg) id with
-    | Some m => ret m
+    | Some m => ret (XRaw m)                       (* a mapped generic type drops its arguments *)
     | None =>
-      mdo parts <- (fix go (l : list rtype) : PM (list str) :=
+      mdo parts <- (fix go (l : list rtype) : PM (list texp) :=
                       match l with
                       | [] => ret []
-                      | x :: r => mdo y <- py_format_type generics x; mdo ys <- go r; ret (y :: ys)
+                      | x :: r => mdo y <- py_texp generics x; mdo ys <- go r; ret (y :: ys)
                       end) ps;
       (* python.rs:180 format_simple_type(base): add_imports again (idempotent); base is unmapped here *)
-      ret (id ++ match parts with [] => [] | _ => lit "[" ++ join (lit ", ") parts ++ lit "]" end)
+      ret (XName id parts)
     end
   | RArray x _ => special_mapped (list_of x)
   | RSlice x => special_mapped (list_of x)
@@ -184,198 +198,336 @@ Fixpoint py_format_type (generics : list str) (t : rtype) : PM str :=
   | ROption x =>
     special_mapped
       (mdo _ <- py_add_import (lit "typing") (lit "Optional");
-       mdo s <- py_format_type generics x;
-       ret (lit "Optional[" ++ s ++ lit "]"))
+       mdo e <- py_texp generics x;
+       ret (XOpt e))
   | RHashMap k v =>
     special_mapped
       (mdo _ <- py_add_import (lit "typing") (lit "Dict");
-       mdo ks <- match k with
+       mdo ke <- match k with
                  | RSimple id => if mem_str id generics then fail (EGenericKeyForbiddenInTS id)
-                                 else py_format_type generics k
-                 | _ => py_format_type generics k
+                                 else py_texp generics k
+                 | _ => py_texp generics k
                  end;
-       mdo vs <- py_format_type generics v;
-       ret (lit "Dict[" ++ ks ++ lit ", " ++ vs ++ lit "]"))
+       mdo ve <- py_texp generics v;
+       ret (XName (lit "Dict") [ke; ve]))
   | RPrim p =>
     special_mapped
       match p with
-      | PDateTime => mdo _ <- py_add_import (lit "datetime") (lit "datetime"); ret (lit "datetime")
-      | PUnit => ret (lit "None")
-      | PString | PChar => ret (lit "str")
-      | PI8 | PU8 | PI16 | PU16 | PI32 | PU32 | PI54 | PU53 | PU64 | PI64 | PISize | PUSize => ret (lit "int")
-      | PF32 | PF64 => ret (lit "float")
-      | PBool => ret (lit "bool")
+      | PDateTime => mdo _ <- py_add_import (lit "datetime") (lit "datetime"); ret (XName (lit "datetime") [])
+      | PUnit => ret (XName (lit "None") [])
+      | PString | PChar => ret (XName (lit "str") [])
+      | PI8 | PU8 | PI16 | PU16 | PI32 | PU32 | PI54 | PU53 | PU64 | PI64 | PISize | PUSize => ret (XName (lit "int") [])
+      | PF32 | PF64 => ret (XName (lit "float") [])
+      | PBool => ret (XName (lit "bool") [])
       end
   end.
 
-(* "[T, U]" or "" (python.rs:282, 322) *)
-Definition py_generics_list (gs : list str) : str := lit "[" ++ join (lit ", ") gs ++ lit "]".
+(* the text format_type returns *)
+Definition py_format_type (generics : list str) (t : rtype) : PM str :=
+  mdo x <- py_texp generics t; ret (py_show x).
 
-(* python.rs:273 write_type_alias *)
-Definition py_write_type_alias (a : ralias) : PM str :=
-  mdo ty <- py_format_type (agenerics a) (atype a);
-  ret (renamed (aid a) ++ (match agenerics a with [] => [] | gs => py_generics_list gs end) ++
-       lit " = " ++ ty ++ py_nl ++ py_nl ++
-       py_write_comments true (acomments a) 0).
+(* ---- declarations (decisions) ---- *)
+(* one attribute of a pydantic class (python.rs:438 write_field) *)
+Record py_member := {
+  pym_docs : list str;
+  pym_name : str;                     (* python_field_name *)
+  pym_escaped : bool;                 (* the keyword branch of python_property_aware_rename was taken *)
+  pym_alias : option str;             (* Some renamed: Field(alias="renamed") *)
+  pym_type : texp;                    (* field_type BEFORE the Annotated wrapper: the translated type, inside XOpt
+                                         when a non-Option field has a serde default (python.rs:458) *)
+  pym_annotated : option (str * str); (* Some (deserialization_name, serialization_name): Annotated[.., BeforeValidator(..), PlainSerializer(..)] *)
+  pym_default_none : bool             (* Field(default=None) *)
+}.
 
-(* python.rs:293 write_const *)
-Definition py_write_const (c : rconst) : PM str :=
-  mdo const_type <- py_format_type [] (ctype c);
-  ret (str_to_uppercase uc (to_snake_case uc (renamed (cid c))) ++ lit ": " ++ const_type ++ lit " = " ++
-       dec_of_Z (cvalue c) ++ py_nl).
+(* what a variant class of an algebraic enum holds under the content key *)
+Inductive py_content :=
+| PYCNone                             (* unit variant: no content attribute *)
+| PYCType (ty : texp)                 (* tuple variant: content: <type> *)
+| PYCInner (inner : str).             (* struct variant: content: <Enum><Variant>Inner, the name as USED here (no type arguments) *)
 
-(* python.rs:438 write_field *)
-Definition py_write_field (generics : list str) (f : rfield) : PM str :=
+Record py_variant := {
+  pyv_docs : list str;
+  pyv_class : str;                    (* variant_class_name = enum_name ++ original; also the member of the final Union *)
+  pyv_types : str;                    (* enum_type_class_name, as spelled in the tag value *)
+  pyv_type_key : str;                 (* type_key_name: the member of the Types enum the tag value refers to *)
+  pyv_content : py_content
+}.
+
+Inductive py_decl :=
+| PYAlias (docs : list str) (name : str) (generics : list str) (ty : texp)
+| PYConst (name : str) (ty : texp) (value : str)
+(* a pydantic class: a source struct, or the <Enum><Variant>Inner helper of a struct variant;
+   populate_by_name = the model_config line is required (python.rs:746 handle_model_config) *)
+| PYClass (docs : list str) (name : str) (generics : list str) (populate_by_name : bool) (ms : list py_member)
+| PYUnitEnum (docs : list str) (name : str) (vs : list (list str * str * str))   (* docs, member name, wire value *)
+(* the <Enum>Types (str, Enum) class with its (member name, wire value) entries, one class per variant,
+   and the final  name = Union[..]  *)
+| PYAlgebraic (docs : list str) (name : str) (types_name : str) (entries : list (str * str))
+              (tag content : str) (vs : list py_variant).
+
+(* python.rs:438 write_field: decisions *)
+Definition py_member_of (generics : list str) (f : rfield) : PM py_member :=
   let is_opt := is_optional (fty f) || has_default f in
   let not_optional_but_default := negb (is_optional (fty f)) && has_default f in
-  mdo python_type <- py_format_type generics (fty f);
+  mdo ty <- py_texp generics (fty f);
+  let python_type := py_show ty in
   let python_field_name := py_property_aware_rename (original (fid f)) in
   let is_aliased := negb (str_eqb python_field_name (renamed (fid f))) in
   let custom_translations := py_json_translation_for_type python_type in
   mdo _ <- py_add_common_imports is_opt (py_is_some custom_translations) is_aliased;
-  let field_type := if not_optional_but_default then lit "Optional[" ++ python_type ++ lit "]" else python_type in
-  mdo field_type <- match custom_translations with
-                    | Some ct =>
-                      (* python.rs:462: the (possibly Optional[..]-wrapped) text goes into the set *)
-                      mdo _ <- py_add_custom_type field_type;
-                      ret (lit "Annotated[" ++ field_type ++ lit ", BeforeValidator(" ++ py_de_name ct ++
-                           lit "), PlainSerializer(" ++ py_ser_name ct ++ lit ")]")
-                    | None => ret field_type
-                    end;
-  let decorators := (if is_aliased then [lit "alias=""" ++ renamed (fid f) ++ lit """"] else []) ++
-                    (if is_opt || not_optional_but_default then [lit "default=None"] else []) in
-  let python_return_value := match decorators with
-                             | [] => []
-                             | _ => lit " = Field(" ++ join (lit ", ") decorators ++ lit ")"
-                             end in
-  ret (lit "    " ++ python_field_name ++ lit ": " ++ field_type ++ python_return_value ++ py_nl ++
-       py_write_comments true (fcomments f) 1).
+  let field_type := if not_optional_but_default then XOpt ty else ty in
+  mdo ann <- match custom_translations with
+             | Some ct =>
+               (* python.rs:462: the (possibly Optional[..]-wrapped) text goes into the set *)
+               mdo _ <- py_add_custom_type (py_show field_type);
+               ret (Some (py_de_name ct, py_ser_name ct))
+             | None => ret None
+             end;
+  ret {| pym_docs := fcomments f; pym_name := python_field_name;
+         pym_escaped := py_name_is_keyword (original (fid f));
+         pym_alias := if is_aliased then Some (renamed (fid f)) else None;
+         pym_type := field_type; pym_annotated := ann;
+         pym_default_none := is_opt || not_optional_but_default |}.
 
-(* python.rs:746 handle_model_config *)
-Definition py_handle_model_config (fields : list rfield) : PM str :=
+(* python.rs:746 handle_model_config: decision *)
+Definition py_populate_by_name (fields : list rfield) : PM bool :=
   if existsb (fun f => negb (str_eqb (py_property_aware_rename (original (fid f))) (renamed (fid f)))) fields then
-    mdo _ <- py_add_import (lit "pydantic") (lit "ConfigDict");
-    ret (lit "    model_config = ConfigDict(populate_by_name=True)" ++ py_nl ++ py_nl)
-  else ret [].
+    mdo _ <- py_add_import (lit "pydantic") (lit "ConfigDict"); ret true
+  else ret false.
 
-(* python.rs:310 write_struct *)
-Definition py_write_struct (s : rstruct) : PM str :=
+(* python.rs:310 write_struct: decisions *)
+Definition py_class_of (s : rstruct) : PM py_decl :=
   mdo _ <- py_add_import (lit "pydantic") (lit "BaseModel");
   mdo _ <- py_add_type_vars (sgenerics s);
-  mdo bases <- match sgenerics s with
-               | [] => ret (lit "BaseModel")
-               | gs => mdo _ <- py_add_import (lit "typing") (lit "Generic");
-                       ret (lit "BaseModel, Generic" ++ py_generics_list gs)
-               end;
-  mdo config <- py_handle_model_config (sfields s);
-  mdo body <- mconcat (py_write_field (sgenerics s)) (sfields s);
-  ret (lit "class " ++ renamed (sid s) ++ lit "(" ++ bases ++ lit "):" ++ py_nl ++
-       py_write_comments true (scomments s) 1 ++
-       config ++ body ++
-       (match sfields s with [] => lit "    pass" | _ => [] end) ++ py_nl).
+  mdo _ <- match sgenerics s with
+           | [] => ret tt
+           | _ => py_add_import (lit "typing") (lit "Generic")
+           end;
+  mdo config <- py_populate_by_name (sfields s);
+  mdo ms <- mmapM (py_member_of (sgenerics s)) (sfields s);
+  ret (PYClass (scomments s) (renamed (sid s)) (sgenerics s) config ms).
 
-(* python.rs:343 make_anonymous_struct_name *)
+(* python.rs:343 make_anonymous_struct_name: the ONE closure that names the helper both where it is
+   defined (mod.rs:377) and where it is referenced (python.rs:692) *)
 Definition py_anonymous_struct_name (e : eshared) (variant_name : str) : str :=
   renamed (eid e) ++ variant_name ++ lit "Inner".
 
-(* mod.rs:366 write_types_for_anonymous_structs *)
-Definition py_write_types_for_anonymous_structs (e : eshared) : PM str :=
-  mconcat (fun v => match v with
-                    | VAnon fs sh =>
-                      py_write_struct (anon_struct e (py_anonymous_struct_name e (original (vid sh))) (original (vid sh)) fs)
-                    | _ => ret []
-                    end) (evariants e).
-
-(* python.rs:568 write_variant_class *)
-Definition py_write_variant_class (class_name tag_key tag_value content_key : str)
-           (content_type content_value : option str) (comments : list str) : PM str :=
-  mdo _ <- py_add_import (lit "typing") (lit "Literal");
-  ret (lit "class " ++ class_name ++ lit "(BaseModel):" ++ py_nl ++
-       py_write_comments true comments 1 ++
-       lit "    " ++ tag_key ++ lit ": Literal[" ++ tag_value ++ lit "] = " ++ tag_value ++ py_nl ++
-       match content_type, content_value with
-       | None, None => []
-       | _, _ => lit "    " ++ content_key ++
-                 (match content_type with Some ct => lit ": " ++ ct | None => [] end) ++
-                 (match content_value with Some cv => lit " = " ++ cv | None => [] end) ++ py_nl
-       end).
+(* mod.rs:366 write_types_for_anonymous_structs: one helper class per struct variant *)
+Fixpoint py_inner_classes_of (e : eshared) (vs : list rvariant) : PM (list py_decl) :=
+  match vs with
+  | [] => ret []
+  | VAnon fs sh :: r =>
+    mdo c <- py_class_of (anon_struct e (py_anonymous_struct_name e (original (vid sh))) (original (vid sh)) fs);
+    mdo cs <- py_inner_classes_of e r;
+    ret (c :: cs)
+  | _ :: r => py_inner_classes_of e r
+  end.
 
 (* python.rs:620-629: (type_key_name, type_string) of a variant *)
 Definition py_variant_type_key (v : rvariant) : str :=
   str_to_uppercase uc (cc_to_snake uc (renamed (vid (variant_shared v)))).
 
-(* python.rs:649-707: one variant of an algebraic enum *)
-Definition py_write_algebraic_variant (tag_key content_key enum_name enum_type_class_name : str)
-           (sh : eshared) (v : rvariant) : PM str :=
-  let variant_class_name := enum_name ++ original (vid (variant_shared v)) in
-  let tag_value := enum_type_class_name ++ lit "." ++ py_variant_type_key v in
+(* python.rs:649-707 and python.rs:568 write_variant_class: one variant of an algebraic enum *)
+Definition py_variant_of (enum_name enum_type_class_name : str) (sh : eshared) (v : rvariant) : PM py_variant :=
+  let mk (docs : list str) (c : py_content) : py_variant :=
+    {| pyv_docs := docs; pyv_class := enum_name ++ original (vid (variant_shared v));
+       pyv_types := enum_type_class_name; pyv_type_key := py_variant_type_key v; pyv_content := c |} in
   match v with
   | VUnit vsh =>
-    mdo c <- py_write_variant_class variant_class_name tag_key tag_value content_key None None (vcomments vsh);
-    ret (c ++ py_nl)
+    mdo _ <- py_add_import (lit "typing") (lit "Literal");
+    ret (mk (vcomments vsh) PYCNone)
   | VTuple ty vsh =>
-    mdo tuple_name <- py_format_type (egenerics sh) ty;
-    mdo c <- py_write_variant_class variant_class_name tag_key tag_value content_key (Some tuple_name) None (vcomments vsh);
-    ret (c ++ py_nl)
+    mdo tuple_name <- py_texp (egenerics sh) ty;
+    mdo _ <- py_add_import (lit "typing") (lit "Literal");
+    ret (mk (vcomments vsh) (PYCType tuple_name))
   | VAnon _ vsh =>
-    let variant_class_inner_name := py_anonymous_struct_name sh (original (vid vsh)) in
-    mdo c <- py_write_variant_class variant_class_name tag_key tag_value content_key (Some variant_class_inner_name) None (vcomments vsh);
-    ret (c ++ py_nl)
+    mdo _ <- py_add_import (lit "typing") (lit "Literal");
+    ret (mk (vcomments vsh) (PYCInner (py_anonymous_struct_name sh (original (vid vsh)))))
   end.
 
-(* python.rs:603 write_algebraic_enum *)
-Definition py_write_algebraic_enum (tag_key content_key enum_name : str) (sh : eshared) : PM str :=
+(* python.rs:603 write_algebraic_enum: decisions *)
+Definition py_algebraic_of (tag_key content_key enum_name : str) (sh : eshared) : PM py_decl :=
   mdo _ <- py_add_type_vars (egenerics sh);
   mdo _ <- py_add_import (lit "pydantic") (lit "BaseModel");
   let enum_type_class_name := renamed (eid sh) ++ lit "Types" in
   mdo _ <- py_add_import (lit "enum") (lit "Enum");
-  let types_class :=
-    lit "class " ++ enum_type_class_name ++ lit "(str, Enum):" ++ py_nl ++
-    join py_nl (map (fun v => lit "    " ++ py_variant_type_key v ++ lit " = """ ++
-                              renamed (vid (variant_shared v)) ++ lit """") (evariants sh)) ++ py_nl ++
-    py_nl in
-  mdo classes <- mconcat (py_write_algebraic_variant tag_key content_key enum_name enum_type_class_name sh) (evariants sh);
-  let union_members := map (fun v => enum_name ++ original (vid (variant_shared v))) (evariants sh) in
-  mdo last <- match union_members with
-              | [m] => ret (enum_name ++ lit " = " ++ m ++ py_nl)
-              | _ => mdo _ <- py_add_import (lit "typing") (lit "Union");
-                     ret (enum_name ++ lit " = Union[" ++ join (lit ", ") union_members ++ lit "]" ++ py_nl)
-              end;
-  ret (types_class ++ classes ++ py_write_comments false (ecomments sh) 0 ++ last).
+  let entries := map (fun v => (py_variant_type_key v, renamed (vid (variant_shared v)))) (evariants sh) in
+  mdo vs <- mmapM (py_variant_of enum_name enum_type_class_name sh) (evariants sh);
+  mdo _ <- match vs with
+           | [_] => ret tt
+           | _ => py_add_import (lit "typing") (lit "Union")
+           end;
+  ret (PYAlgebraic (ecomments sh) enum_name enum_type_class_name entries tag_key content_key vs).
 
 (* python.rs:359-372: one variant of a unit enum *)
-Definition py_write_unit_variant (v : rvariant) : PM str :=
+Definition py_unit_variant_of (v : rvariant) : PM (list str * str * str) :=
   match v with
-  | VUnit vsh =>
-    ret (lit "    " ++ str_to_uppercase uc (original (vid vsh)) ++ lit " = """ ++
-         replace_sub [ch_dq] [ch_bs; ch_dq] (renamed (vid vsh)) ++ lit """" ++ py_nl ++
-         py_write_comments true (vcomments vsh) 1)
+  | VUnit vsh => ret (vcomments vsh, str_to_uppercase uc (original (vid vsh)), renamed (vid vsh))
   | _ => mpanic "python.rs:368"
   end.
 
-(* python.rs:341 write_enum *)
-Definition py_write_enum (e : renum) : PM str :=
-  mdo anon <- py_write_types_for_anonymous_structs (enum_shared e);
-  match e with
-  | EUnit sh =>
-    mdo _ <- py_add_import (lit "enum") (lit "Enum");
-    mdo vs <- match evariants sh with
-              | [] => ret (lit "    pass" ++ py_nl)
-              | l => mconcat py_write_unit_variant l
-              end;
-    ret (anon ++ lit "class " ++ renamed (eid sh) ++ lit "(str, Enum):" ++ py_nl ++
-         py_write_comments true (ecomments sh) 1 ++ vs)
-  | EAlgebraic tag_key content_key sh =>
-    mdo body <- py_write_algebraic_enum tag_key content_key (renamed (eid sh)) sh;
-    ret (anon ++ body)
+(* python.rs:341 write_enum, python.rs:273 write_type_alias, python.rs:293 write_const: decisions.
+   The helper classes of an enum's struct variants come first, in variant order. *)
+Definition py_decl_of (it : ritem) : PM (list py_decl) :=
+  match it with
+  | ItEnum e =>
+    mdo inners <- py_inner_classes_of (enum_shared e) (evariants (enum_shared e));
+    match e with
+    | EUnit sh =>
+      mdo _ <- py_add_import (lit "enum") (lit "Enum");
+      mdo vs <- mmapM py_unit_variant_of (evariants sh);
+      ret (inners ++ [PYUnitEnum (ecomments sh) (renamed (eid sh)) vs])
+    | EAlgebraic tag_key content_key sh =>
+      mdo d <- py_algebraic_of tag_key content_key (renamed (eid sh)) sh;
+      ret (inners ++ [d])
+    end
+  | ItStruct s => mdo d <- py_class_of s; ret [d]
+  | ItAlias a =>
+    mdo ty <- py_texp (agenerics a) (atype a);
+    ret [PYAlias (acomments a) (renamed (aid a)) (agenerics a) ty]
+  | ItConst c =>
+    mdo const_type <- py_texp [] (ctype c);
+    ret [PYConst (str_to_uppercase uc (to_snake_case uc (renamed (cid c)))) const_type (dec_of_Z (cvalue c))]
   end.
 
+(* ---- rendering (layout only) ---- *)
+(* "[T, U]" (python.rs:282, 322) *)
+Definition py_generics_list (gs : list str) : str := lit "[" ++ join (lit ", ") gs ++ lit "]".
+
+(* python.rs:456-488 *)
+Definition py_render_member (m : py_member) : str :=
+  let shown := py_show (pym_type m) in
+  let field_type := match pym_annotated m with
+                    | Some (de, ser) => lit "Annotated[" ++ shown ++ lit ", BeforeValidator(" ++ de ++
+                                        lit "), PlainSerializer(" ++ ser ++ lit ")]"
+                    | None => shown
+                    end in
+  let decorators := (match pym_alias m with Some k => [lit "alias=""" ++ k ++ lit """"] | None => [] end) ++
+                    (if pym_default_none m then [lit "default=None"] else []) in
+  let python_return_value := match decorators with
+                             | [] => []
+                             | _ => lit " = Field(" ++ join (lit ", ") decorators ++ lit ")"
+                             end in
+  lit "    " ++ pym_name m ++ lit ": " ++ field_type ++ python_return_value ++ py_nl ++
+  py_write_comments true (pym_docs m) 1.
+
+(* python.rs:568 write_variant_class, then the blank line of python.rs:666/685/704 *)
+Definition py_render_variant (tag_key content_key : str) (v : py_variant) : str :=
+  let tag_value := pyv_types v ++ lit "." ++ pyv_type_key v in
+  lit "class " ++ pyv_class v ++ lit "(BaseModel):" ++ py_nl ++
+  py_write_comments true (pyv_docs v) 1 ++
+  lit "    " ++ tag_key ++ lit ": Literal[" ++ tag_value ++ lit "] = " ++ tag_value ++ py_nl ++
+  match pyv_content v with
+  | PYCNone => []
+  | PYCType ty => lit "    " ++ content_key ++ lit ": " ++ py_show ty ++ py_nl
+  | PYCInner inner => lit "    " ++ content_key ++ lit ": " ++ inner ++ py_nl
+  end ++ py_nl.
+
+Definition py_render_decl (d : py_decl) : str :=
+  match d with
+  | PYAlias docs name gs ty =>
+    name ++ (match gs with [] => [] | _ => py_generics_list gs end) ++
+    lit " = " ++ py_show ty ++ py_nl ++ py_nl ++
+    py_write_comments true docs 0
+  | PYConst name ty value =>
+    name ++ lit ": " ++ py_show ty ++ lit " = " ++ value ++ py_nl
+  | PYClass docs name gs config ms =>
+    lit "class " ++ name ++ lit "(" ++
+    (match gs with [] => lit "BaseModel" | _ => lit "BaseModel, Generic" ++ py_generics_list gs end) ++
+    lit "):" ++ py_nl ++
+    py_write_comments true docs 1 ++
+    (if config then lit "    model_config = ConfigDict(populate_by_name=True)" ++ py_nl ++ py_nl else []) ++
+    List.concat (map py_render_member ms) ++
+    (match ms with [] => lit "    pass" | _ => [] end) ++ py_nl
+  | PYUnitEnum docs name vs =>
+    lit "class " ++ name ++ lit "(str, Enum):" ++ py_nl ++
+    py_write_comments true docs 1 ++
+    match vs with
+    | [] => lit "    pass" ++ py_nl
+    | _ => List.concat (map (fun v => let '(vdocs, case, wire) := v in
+                                      lit "    " ++ case ++ lit " = """ ++
+                                      replace_sub [ch_dq] [ch_bs; ch_dq] wire ++ lit """" ++ py_nl ++
+                                      py_write_comments true vdocs 1) vs)
+    end
+  | PYAlgebraic docs name types_name entries tag_key content_key vs =>
+    lit "class " ++ types_name ++ lit "(str, Enum):" ++ py_nl ++
+    join py_nl (map (fun kw => lit "    " ++ fst kw ++ lit " = """ ++ snd kw ++ lit """") entries) ++ py_nl ++
+    py_nl ++
+    List.concat (map (py_render_variant tag_key content_key) vs) ++
+    py_write_comments false docs 0 ++
+    match map pyv_class vs with
+    | [m] => name ++ lit " = " ++ m ++ py_nl
+    | union_members => name ++ lit " = Union[" ++ join (lit ", ") union_members ++ lit "]" ++ py_nl
+    end
+  end.
+
+(* write_struct / write_enum / write_type_alias / write_const = render of the declarations *)
 Definition py_write_item (it : ritem) : PM str :=
-  match it with
-  | ItEnum e => py_write_enum e
-  | ItStruct s => py_write_struct s
-  | ItAlias a => py_write_type_alias a
-  | ItConst c => py_write_const c
+  mdo ds <- py_decl_of it; ret (List.concat (map py_render_decl ds)).
+
+(* ---- observation: the language-independent view of a declaration ---- *)
+(* The optional idiom of a pydantic attribute is an  Optional[T]  annotation TOGETHER WITH a None default
+   (Field(default=None ..)).  mb_optional says both are present; mb_type is then T: exactly ONE outer
+   XOpt of pym_type is stripped (Option<Option<T>> keeps the inner Optional[..]; an  Option<T>  whose
+   Display is in type_mappings is XRaw: default None but no Optional annotation, so not optional here and
+   nothing is stripped).  The Annotated[.., BeforeValidator, PlainSerializer] wrapper is not part of mb_type. *)
+Definition py_obs_member (m : py_member) : member :=
+  let opt := match pym_type m with XOpt _ => pym_default_none m | _ => false end in
+  {| mb_name := pym_name m; mb_escaped := pym_escaped m;
+     mb_key := match pym_alias m with Some k => k | None => pym_name m end;
+     mb_binding := match pym_alias m with Some _ => BAlias | None => BName end;
+     mb_optional := opt;
+     mb_type := match pym_type m with XOpt t => if opt then t else pym_type m | t => t end;
+     mb_docs := pym_docs m |}.
+
+(* the wire string a tag value  Types.KEY  stands for: the value of the member KEY of the Types class
+   (looked up BY NAME, first entry; a Python Enum rejects a repeated member name) *)
+Fixpoint py_types_lookup (entries : list (str * str)) (key : str) : str :=
+  match entries with
+  | [] => []
+  | (k, w) :: r => if str_eqb k key then w else py_types_lookup r key
+  end.
+
+(* a tuple variant's content attribute has no default, so it never carries the optional idiom:
+   PayNewtype ty false with ty unstripped.  A struct variant refers to its helper by the bare name. *)
+Definition py_obs_variant (entries : list (str * str)) (v : py_variant) : variantd :=
+  {| vd_name := pyv_class v; vd_wire := py_types_lookup entries (pyv_type_key v);
+     vd_payload := match pyv_content v with
+                   | PYCNone => PayUnit
+                   | PYCType ty => PayNewtype ty false
+                   | PYCInner inner => PayRef inner []
+                   end;
+     vd_parent := None; vd_docs := pyv_docs v |}.
+
+Definition py_obs (d : py_decl) : list decl :=
+  match d with
+  | PYAlias docs name gs ty =>
+    [{| d_kind := DAlias; d_name := name; d_escaped := false; d_generics := gs; d_docs := docs; d_members := [];
+        d_variants := []; d_tag_keys := []; d_content_keys := []; d_type := Some ty; d_value := None |}]
+  | PYConst name ty value =>
+    [{| d_kind := DConst; d_name := name; d_escaped := false; d_generics := []; d_docs := []; d_members := [];
+        d_variants := []; d_tag_keys := []; d_content_keys := []; d_type := Some ty; d_value := Some value |}]
+  | PYClass docs name gs _ ms =>
+    [{| d_kind := DStruct; d_name := name; d_escaped := false; d_generics := gs; d_docs := docs;
+        d_members := map py_obs_member ms;
+        d_variants := []; d_tag_keys := []; d_content_keys := []; d_type := None; d_value := None |}]
+  | PYUnitEnum docs name vs =>
+    [{| d_kind := DEnum; d_name := name; d_escaped := false; d_generics := []; d_docs := docs; d_members := [];
+        d_variants := map (fun v => let '(vdocs, case, wire) := v in
+                                    {| vd_name := case; vd_wire := wire; vd_payload := PayUnit; vd_parent := None; vd_docs := vdocs |}) vs;
+        d_tag_keys := []; d_content_keys := []; d_type := None; d_value := None |}]
+  | PYAlgebraic docs name types_name entries tag_key content_key vs =>
+    (* the Types class is a definition typeshare adds itself; then the enum: its variant classes and the
+       Union.  The text declares no type parameters for either.  The tag key is spelled once in every
+       variant class, the content key once in every variant class that has content. *)
+    [{| d_kind := DHelper; d_name := types_name; d_escaped := false; d_generics := []; d_docs := []; d_members := [];
+        d_variants := map (fun kw => {| vd_name := fst kw; vd_wire := snd kw; vd_payload := PayUnit; vd_parent := None; vd_docs := [] |}) entries;
+        d_tag_keys := []; d_content_keys := []; d_type := None; d_value := None |};
+     {| d_kind := DEnum; d_name := name; d_escaped := false; d_generics := []; d_docs := docs; d_members := [];
+        d_variants := map (py_obs_variant entries) vs;
+        d_tag_keys := map (fun _ => tag_key) vs;
+        d_content_keys := flat_map (fun v => match pyv_content v with PYCNone => [] | _ => [content_key] end) vs;
+        d_type := None; d_value := None |}]
   end.
 
 (* python.rs:264 begin_file *)
@@ -412,4 +564,50 @@ Definition py_generate (pd : parsed) : outcome str :=
   | Err e => Err e
   | Panic p => Panic p
   end.
+
+(* ---- the declarations of a whole file (what the file DECLARES), and the helpers it defines ---- *)
+Definition py_decls (pd : parsed) : outcome (list py_decl * py_state) :=
+  do items <- topsort (items_of pd);
+  match mmapM py_decl_of items py_empty_state with
+  | Ok (dss, st) => Ok (List.concat dss, st)
+  | Err e => Err e
+  | Panic p => Panic p
+  end.
+
+(* the (module, identifiers) entries in the order write_all_imports prints their lines (sorted as lines) *)
+Definition py_import_line (mi : str * list str) : str :=
+  lit "from " ++ fst mi ++ lit " import " ++ join (lit ", ") (snd mi).
+Fixpoint py_insert_by_line (x : str * list str) (l : list (str * list str)) : list (str * list str) :=
+  match l with
+  | [] => [x]
+  | y :: r => if str_ltb (py_import_line x) (py_import_line y) then x :: l else y :: py_insert_by_line x r
+  end.
+Definition py_imports_in_output_order (st : py_state) : list (str * list str) :=
+  fold_right py_insert_by_line [] (py_imports st).
+
+(* the translations write_custom_translations prints, in its order *)
+Definition py_translations_defined (st : py_state) : list py_translation :=
+  flat_map (fun py_type => match py_json_translation_for_type py_type with Some ct => [ct] | None => [] end)
+           (py_custom_types st).
+
+Definition py_helper_decl (name : str) : decl :=
+  {| d_kind := DHelper; d_name := name; d_escaped := false; d_generics := []; d_docs := []; d_members := [];
+     d_variants := []; d_tag_keys := []; d_content_keys := []; d_type := None; d_value := None |}.
+
+(* fd_header: the version line (if any) and the fixed  from __future__ import annotations;
+   fd_imports: module.identifier for every imported identifier, in output order;
+   fd_decls, in output order: one DHelper per  T = TypeVar("T"), one per helper function (serializer, then
+   deserializer, per collected type), then the observations of the body's declarations;
+   fd_helper_defs: the bare names this file defines or imports besides the declarations of the body:
+   TypeVars, helper functions, imported identifiers. *)
+Definition py_file_decls (pd : parsed) : outcome file_decls :=
+  do r <- py_decls pd;
+  let '(ds, st) := r in
+  let imported := py_imports_in_output_order st in
+  let fns := flat_map (fun ct => [py_ser_name ct; py_de_name ct]) (py_translations_defined st) in
+  Ok {| fd_header := (if py_no_version_header cfg then [] else [lit "Generated by typeshare " ++ py_version cfg]) ++
+                     [lit "from __future__ import annotations"];
+        fd_imports := flat_map (fun mi => map (fun i => fst mi ++ lit "." ++ i) (snd mi)) imported;
+        fd_decls := map py_helper_decl (py_type_variables st) ++ map py_helper_decl fns ++ flat_map py_obs ds;
+        fd_helper_defs := py_type_variables st ++ fns ++ flat_map snd imported |}.
 End PY.
